@@ -1,6 +1,5 @@
 from __future__ import annotations
 
-import re
 from collections.abc import Iterable, Sequence
 from typing import TypedDict, Any, cast, overload
 from typing_extensions import TypeIs, NotRequired
@@ -322,9 +321,10 @@ class Compiler:
 
         for n, variable_cell in enumerate(variable_cells):
             value_cell = value_cells[n]
-            # For the case of trailing backslash, re-escaping backslashes are needed
-            reescaped_value = re.sub(r"\\", r"\\\\", value_cell["value"])
-            name = re.sub("<{0[value]}>".format(variable_cell), reescaped_value, name)
+            # Header and value are plain text, not a regular expression / replacement template
+            name = name.replace(
+                "<{0[value]}>".format(variable_cell), value_cell["value"]
+            )
         return name
 
     def _pickle_step(self, step: Step, keyword_type: str) -> PickleStep:
